@@ -586,7 +586,6 @@ func joinParts(fn *ssa.Function, seg string) bool {
 	return len(parts) == 2 && strings.HasSuffix(parts[0], ".name") && parts[1] == "1:"+seg
 }
 
-
 // c7Appends: appends onto slices owned by the receiver / an argument object (also through a local struct copy of it)
 // are capacity-capped, so derived objects never share a backing-array tail with their parent and siblings.
 func c7Appends(c *Ctx, rule string, fn *ssa.Function) {
@@ -705,7 +704,6 @@ func objOf(base ssa.Value, field int, p *ssa.Parameter, depth int) bool {
 	}
 	return false
 }
-
 
 // c7Eager: With (and the Fields option, which is With) evaluates its fields at derivation: the core is replaced by
 // core.With(fields) right there. Only WithLazy defers.
